@@ -6,6 +6,7 @@ CONSTANTS
   MaxBurst = 4
   MaxMsgs = 12
   Depth = 16
+  Focus = FALSE
 INVARIANT Inv
 CONSTRAINT EmitAll
 CHECK_DEADLOCK FALSE
